@@ -263,6 +263,15 @@ def run_property(pid, tier):
             except Exception:
                 still = None
                 broken.append({"kind": "harness", "detail": "replay_finding crashed for %s:\n%s" % (f["id"], traceback.format_exc()[-800:])})
+        if still is None and f.get("witness_py"):
+            # self-contained witness: python source defining fails() -> bool (True = the defect shows)
+            try:
+                ns = {}
+                exec(f["witness_py"], ns)
+                still = bool(ns["fails"]())
+            except Exception:
+                still = True if f.get("status") == "fixed" else None
+                broken.append({"kind": "harness", "detail": "witness_py crashed for %s:\n%s" % (f["id"], traceback.format_exc()[-800:])})
         if f.get("status") == "open":
             if still is False:
                 print("NOTE: finding %s no longer reproduces on this tree" % f["id"])
